@@ -117,8 +117,8 @@ func registeredUndoManagers(w *core.World) map[*types.Named]bool {
 var c01Idioms = []idiom{
 	{Fn: "pkg/datasource/sql/undo/executor.(BaseExecutor).dataValidationAndGoOn", Callee: "github.com/goccy/go-json.Marshal", Kind: "dropped",
 		Reason: "result only feeds the log line printed just before the dirty-data error is returned"},
-	{Fn: "pkg/datasource/sql/undo/executor.(BaseExecutor).queryCurrentRecords", Callee: "database/sql/driver.(Valuer).Value", Kind: "dropped",
-		Reason: "the scan slice holds database/sql Null* values whose Value() cannot fail"},
+	{Fn: "", Callee: "database/sql/driver.(Valuer).Value", Kind: "dropped",
+		Reason: "the scan slices of the undo executors hold database/sql Null* values whose Value() cannot fail (wherever the unwrapping is done)"},
 	{Fn: "pkg/datasource/sql/undo/base.(BaseUndoLogManager).HasUndoLogTable", Callee: "database/sql.(Conn).QueryContext", Kind: "swallowed",
 		Reason: "MySQL error 1146 (no such table) is the negative answer of this probe, returned as (false, nil); not on the rollback chain"},
 	{Fn: "pkg/datasource/sql/undo/base.(BaseUndoLogManager).getSerializer", Callee: "", Kind: "",
